@@ -214,6 +214,10 @@ def lexOf {β : Type} : List (β → β → Bool) → β → β → Bool
 def useTopN (limit partLen nkeys : Nat) (constant : Bool) : Bool :=
   decide (limit < partLen / 2) && decide (nkeys = 1) && !constant
 
+/-- `Query::normalize` (after fix 1179be7): ORDER BY keys that reference no column (and contain no aggregate) have the
+    same value in every row; they are dropped before planning (a scalar ranking has length 1). -/
+def dropConstKeys {κ : Type} (isConst : κ → Bool) (keys : List κ) : List κ := keys.filter fun k => !isConst k
+
 /-- One partition through `NormalFormQuery::run`: `partLen` is the unfiltered length, `rows` the rows
     that passed the filter (the sort runs on the filtered ranking). -/
 def partRun {β : Type} (usort : USort) (cmps : List (β → β → Bool)) (constant : Bool) (limit partLen : Nat)
